@@ -3,40 +3,114 @@
 (* C20.  The `fields` pipe / fetch field filter returns, for every          *)
 (* document, a JSON object with exactly the listed top-level fields the     *)
 (* stored document has (allow) or exactly the others (except), values       *)
-(* untouched; the set and order of returned documents is unchanged.         *)
+(* untouched; the set and order of returned documents is unchanged; without *)
+(* a pipe / filter the documents come back as they are stored.              *)
 (* Documents are abstracted to their set of top-level field names; concrete *)
 (* values come from the driver's palette of JSON shapes (B4).               *)
+(*                                                                         *)
+(* Field names.  Any string is a JSON object key, so the alphabet is split  *)
+(* into universes; every literal below denotes a CLASS of names (Class) and *)
+(* the driver draws the representative inside the class:                    *)
+(*   plain : a, A (JSON keys are case sensitive), b             missing z   *)
+(*   blank : a, "" (the empty key), " " (a key of white space only:         *)
+(*           space, tab, several spaces, line feed, no-break space, ...)    *)
+(*                                                               missing z   *)
+(*   affix : a, " a" (a padded with white space in front or behind),        *)
+(*           "a,b" (one key containing a list separator , ; |)  missing b   *)
+(*   inner : a, "a.b" (one key that looks like a path . / :),               *)
+(*           "a b" (one key with white space inside)             missing b   *)
+(* A list may repeat names and name missing ones.                           *)
+(*                                                                         *)
+(* Entry points.  A filter reaches the store                                *)
+(*   - from a fetch: proxyapi/grpc_fetch.go grpcV1.Fetch copies             *)
+(*     fields_filter into search.FetchFieldsFilter (also behind the HTTP    *)
+(*     gateway /fetch), proxy/search makeFetchReq copies it into the        *)
+(*     store request;                                                       *)
+(*   - from a search / complex search / export: proxyapi doSearch hands the *)
+(*     query text to search.Ingestor.Search, tryParseFieldsFilter takes the *)
+(*     list of the first fields pipe as parsed (quoted names unquoted).     *)
+(* In the design every hop hands the list on VERBATIM (Handed); the store   *)
+(* (storeapi/grpc_fetch.go filterFields) treats an empty list as "no        *)
+(* filter" (StoreProject).  EntryFaithful says that what the store computes *)
+(* from the handed-on list is the projection the client asked for.  The     *)
+(* other values of Sanitiser are plausible "clean the client's list" hops;  *)
+(* TLC shows that removing repeats is harmless and that dropping blank      *)
+(* names, trimming and splitting are not (non-vacuity runs of c20.py).      *)
 (***************************************************************************)
 EXTENDS Integers, Sequences, FiniteSets, TLC, SequencesExt, Json
 
-CONSTANTS MaxDocs, MaxFields
+CONSTANTS MaxDocs, MaxFields,
+          Universes,   \* the name universes explored
+          Sanitiser    \* "verbatim" is the design
 
-VARIABLES corpus, flt
-vars == <<corpus, flt>>
+VARIABLES uni, corpus, flt
+vars == <<uni, corpus, flt>>
 
-Names == {"a", "A", "b"}           \* JSON keys are case sensitive: "a" and "A" are different fields
-Asked == Names \cup {"z"}                    \* "z" is never present
+Present(u) == CASE u = "plain" -> {"a", "A", "b"}
+                [] u = "blank" -> {"a", "", " "}
+                [] u = "affix" -> {"a", " a", "a,b"}
+                [] u = "inner" -> {"a", "a.b", "a b"}
+Missing(u) == IF u \in {"plain", "blank"} THEN {"z"} ELSE {"b"}
+Asked(u)   == Present(u) \cup Missing(u)
+AllNames   == UNION {Asked(u) : u \in {"plain", "blank", "affix", "inner"}}
+
+Class(n) == CASE n = ""    -> "empty"
+              [] n = " "   -> "ws"
+              [] n = " a"  -> "padded"
+              [] n = "a,b" -> "sep"
+              [] n = "a.b" -> "path"
+              [] n = "a b" -> "innerws"
+              [] OTHER     -> "plain"
+
 NoF == [fields |-> <<>>, allow |-> TRUE]
 
 \* reference: the names kept for a document holding `has`
 Project(has, f) == IF f.allow THEN has \cap Range(f.fields) ELSE has \ Range(f.fields)
+\* what a client gets back: without a filter the document as stored
+Returned(has, f) == IF f = NoF THEN has ELSE Project(has, f)
 
-Init == corpus = <<>> /\ flt = NoF
+\* ---- the hops between the client's list and the store
+Blank(n)   == Class(n) \in {"empty", "ws"}
+Trimmed(n) == CASE Class(n) = "ws" -> "" [] Class(n) = "padded" -> "a" [] OTHER -> n
+Parts(n)   == IF Class(n) \in {"sep", "innerws"} THEN <<"a", "b">> ELSE <<n>>
+Dedupe(fs) == LET F[i \in 0..Len(fs)] ==
+                    IF i = 0 THEN <<>>
+                    ELSE IF fs[i] \in Range(F[i-1]) THEN F[i-1] ELSE Append(F[i-1], fs[i])
+              IN F[Len(fs)]
+HandedList(fs) == CASE Sanitiser = "verbatim"  -> fs
+                    [] Sanitiser = "dedupe"    -> Dedupe(fs)
+                    [] Sanitiser = "dropblank" -> SelectSeq(fs, LAMBDA n : ~Blank(n))
+                    [] Sanitiser = "trim"      -> [i \in DOMAIN fs |-> Trimmed(fs[i])]
+                    [] Sanitiser = "split"     -> FlattenSeq([i \in DOMAIN fs |-> Parts(fs[i])])
+Handed(f) == [f EXCEPT !.fields = HandedList(f.fields)]
+\* storeapi/grpc_fetch.go filterFields: len(fields) = 0 -> the document as it is
+StoreProject(has, f) == IF f.fields = <<>> THEN has ELSE Project(has, f)
+
+Init == uni \in Universes /\ corpus = <<>> /\ flt = NoF
 AddDoc == /\ Len(corpus) < MaxDocs /\ flt = NoF
-          /\ \E has \in SUBSET Names : corpus' = Append(corpus, has)
-          /\ UNCHANGED flt
+          /\ \E has \in SUBSET Present(uni) : corpus' = Append(corpus, has)
+          /\ UNCHANGED <<uni, flt>>
 Ask == /\ Len(corpus) = MaxDocs /\ flt = NoF
-       /\ \E n \in 1..MaxFields : \E fs \in [1..n -> Asked] : \E al \in BOOLEAN :
+       /\ \E n \in 1..MaxFields : \E fs \in [1..n -> Asked(uni)] : \E al \in BOOLEAN :
             flt' = [fields |-> fs, allow |-> al]
-       /\ UNCHANGED corpus
+       /\ UNCHANGED <<uni, corpus>>
 Next == AddDoc \/ Ask
 Spec == Init /\ [][Next]_vars
 
 \* sanity of the reference itself
 KeepsOnlyOwnFields == flt # NoF => \A i \in DOMAIN corpus : Project(corpus[i], flt) \subseteq corpus[i]
 AllowExceptPartition == flt # NoF => \A i \in DOMAIN corpus :
-   Project(corpus[i], flt) \cup Project(corpus[i], [flt EXCEPT !.allow = ~flt.allow]) = corpus[i]
+   /\ Project(corpus[i], flt) \cup Project(corpus[i], [flt EXCEPT !.allow = ~flt.allow]) = corpus[i]
+   /\ Project(corpus[i], flt) \cap Project(corpus[i], [flt EXCEPT !.allow = ~flt.allow]) = {}
+\* the design of the entry points
+EntryFaithful == \A i \in DOMAIN corpus : StoreProject(corpus[i], Handed(flt)) = Returned(corpus[i], flt)
 
-Emit == flt = NoF \/ PrintT(<<"CASE", ToJson([docs |-> [i \in DOMAIN corpus |-> SetToSeq(corpus[i])], flt |-> flt,
-                                             exp |-> [i \in DOMAIN corpus |-> SetToSeq(Project(corpus[i], flt))]])>>)
+\* one case per full corpus without a filter (documents come back as stored) and per filter
+Emit == Len(corpus) < MaxDocs
+        \/ PrintT(<<"CASE", ToJson([u    |-> uni,
+                                    docs |-> [i \in DOMAIN corpus |-> SetToSeq(corpus[i])],
+                                    cls  |-> [i \in 1..Cardinality(Asked(uni)) |->
+                                                 LET n == SetToSeq(Asked(uni))[i] IN <<n, Class(n)>>],
+                                    flt  |-> flt,
+                                    exp  |-> [i \in DOMAIN corpus |-> SetToSeq(Returned(corpus[i], flt))]])>>)
 =============================================================================
